@@ -19,9 +19,9 @@ SIM_UNIT = "group operations"
 BUDGET = {"quick": {"runs": 1600, "wall": 85}, "thorough": {"runs": 12000, "wall": 2400}}
 SHRINK_LISTS = ("ops",)
 PROBES = {"C03": ["history>=1000", "history>=10000", "act4:w=0", "float32", "batched", "scale-steered",
-                  "assoc", "act-compose", "identity", "inverse", "reinit-from-identity", "logscale>8"]}
+                  "assoc", "act-compose", "identity", "inverse", "reinit-from-identity", "logscale>8", "identity_-through-view:[::2]", "identity_-through-view:[:, 0]"]}
 TS = float(os.environ.get("PPSIM_TOLSCALE", "1"))
-UPDATES = ("mulr", "mull", "inv", "add_", "plus", "retr", "idl", "idr", "reinit")
+UPDATES = ("mulr", "mull", "inv", "add_", "plus", "retr", "idl", "idr", "reinit", "ident_view")
 PROBE_OPS = ("act3", "act4", "assoc", "actcomp", "access", "invlaw")
 
 
@@ -34,13 +34,16 @@ def generate(seed, tier, prop="C03"):
     else:
         n = 1500 if x < 0.03 else r.randint(5, 300)
     cfg = {"fam": fam, "dtype": r.choice(["f64", "f64", "f32"]), "bshape": r.choice([[], [1], [3], [2, 2]]),
-           "sigma": r.choice([0.05, 0.3, 1.0, 2.5]), "logs_bound": r.choice([3.0, 3.0, 8.0, 16.0]),
+           "sigma": r.choice([0.005, 0.05, 0.3, 1.0, 2.5]), "logs_bound": r.choice([3.0, 3.0, 8.0, 16.0]),
            "sdrift": r.choice([0, 0, 0, -1, 1])}
     ro = rng.stream(seed, "ops")
     wu = {k: ro.choice([0, 1, 2, 4]) for k in UPDATES}
     wu["reinit"] = min(wu["reinit"], 1) if n <= 400 else 0
+    wu["ident_view"] = min(wu["ident_view"], 1) if (n <= 400 and fam == "SO3") else 0   # identity_ exists for SO3 only
     if sum(wu.values()) == 0:
         wu["mulr"] = 1
+    if False:
+        pass
     pprobe = ro.choice([0.05, 0.15, 0.4]) if n <= 400 else 0.02
     un = [k for k in UPDATES if wu[k] > 0]; uw = [wu[k] for k in un]
     ops = []
@@ -123,6 +126,16 @@ def quat_of(fam, X):
 
 def scale_of(fam, X):
     return X[..., 7] if fam == "Sim3" else X[..., 4] if fam == "RxSO3" else np.ones(X.shape[:-1])
+
+
+def _merge_reset(Mref, before, after):
+    """Reference trajectory after an in-place reset of some batch items: items that were reset follow `after`."""
+    Mref = np.array(Mref, copy=True)
+    changed = np.abs(after - before).reshape(after.shape[:-2] + (-1,)).max(-1) > 0 if after.ndim > 2 else np.array(True)
+    if after.ndim == 2:
+        return after.copy()
+    Mref[changed] = after[changed]
+    return Mref
 
 
 def execute(plan, prop, out, tr):
@@ -223,6 +236,21 @@ def execute(plan, prop, out, tr):
                 # the algebra element is rounded to the run's dtype before Exp: account for it in float32
                 local(R, want, op, i, nX * np.abs(E).max() * (1 + np.abs(a.numpy()).max()))
                 X = R
+            elif op == "ident_view":
+                # identity_() through a view of the batch (every second item, a column of a 2-D batch, or the whole):
+                # the selected items become the identity in place, the others keep their values
+                R = X
+                want = MX.copy()
+                if len(bs) == 0:
+                    R.identity_(); want[...] = np.eye(4); sel = "all"
+                elif len(bs) == 1:
+                    R[::2].identity_(); want[::2] = np.eye(4); sel = "[::2]"
+                else:
+                    R[:, 0].identity_(); want[:, 0] = np.eye(4); sel = "[:, 0]"
+                local(R, want, op, i, nX)
+                Mref = _merge_reset(Mref, MX, want)
+                X = R
+                out.probe("identity_-through-view:" + sel)
             elif op == "reinit":
                 # start again from a (batched) identity constructor and move it in place: every item of the batch
                 # must be an independent element
